@@ -44,8 +44,11 @@ type MuxW struct {
 	// Orphans: streams written on a connection id that is open only at the writing end; the
 	// receiving mux drops those frames (documented), which must not disturb any other stream.
 	Orphans []MuxStream `json:"orphans,omitempty"`
-	Closers int         `json:"closers"` // concurrent closers of the final orderly close
-	CloseB  bool        `json:"close_b"` // final close on end B instead of A
+	// Blocked: end B's mux is created with WithBlockedRead and unblocked at a scheduler-chosen moment;
+	// everything written before must still arrive.
+	Blocked bool `json:"blocked,omitempty"`
+	Closers int  `json:"closers"` // concurrent closers of the final orderly close
+	CloseB  bool `json:"close_b"` // final close on end B instead of A
 }
 
 var muxSizes = []int{0, 1, 7, 8, 9, 100, 1000, 4095, 4096, 4097, 65536}
@@ -53,7 +56,7 @@ var muxBigSizes = []int{muxMaxPayload - 1, muxMaxPayload, muxMaxPayload + 1, 2*m
 
 func muxGen(focus string) func(rng *rand.Rand, conf string, idx int) any {
 	return func(rng *rand.Rand, conf string, idx int) any {
-		w := &MuxW{Focus: focus, Closers: 1 + rng.Intn(3), CloseB: rng.Intn(2) == 0}
+		w := &MuxW{Focus: focus, Closers: 1 + rng.Intn(3), CloseB: rng.Intn(2) == 0, Blocked: rng.Intn(4) == 0}
 		w.Qlen = pick(rng, []int{1, 2, 3, 4, 8, 16, 64, 256})
 		k := 1 + rng.Intn(6)
 		for _, id := range rng.Perm(9)[:k] {
@@ -152,7 +155,15 @@ func muxRun(t *testing.T, wl any, sc SchedCfg) *Result {
 		ta, tb := e.S.Pipe("trunk")
 		ta.WPark, tb.WPark = true, true
 		ma := multiplex.Multiplex(ta, multiplex.WithReadQueueLength(w.Qlen))
-		mb := multiplex.Multiplex(tb, multiplex.WithReadQueueLength(w.Qlen))
+		optsB := []multiplex.Option{multiplex.WithReadQueueLength(w.Qlen)}
+		if w.Blocked {
+			optsB = append(optsB, multiplex.WithBlockedRead())
+		}
+		mb := multiplex.Multiplex(tb, optsB...)
+		if w.Blocked {
+			e.Task("unblock", func() { mb.Unblock(); mb.Unblock() })
+			e.S.Probe("C10.reader-blocked-until-unblock")
+		}
 		muxes := []multiplex.Mux{ma, mb}
 		conns := [2]map[int]net.Conn{{}, {}}
 		listeners := map[int]net.Listener{}
@@ -161,10 +172,19 @@ func muxRun(t *testing.T, wl any, sc SchedCfg) *Result {
 			lis[id] = true
 		}
 		for _, id := range w.IDs {
-			c, err := ma.Open(multiplex.ConnID(id))
+			var c net.Conn
+			var err error
+			if id%2 == 0 {
+				c, err = ma.Dialer(multiplex.ConnID(id))("unix", "ignored")
+			} else {
+				c, err = ma.Open(multiplex.ConnID(id))
+			}
 			if err != nil {
 				res.Violate(w.Focus+".setup", "open %d: %v", id, err)
 				return
+			}
+			if c2, _ := ma.Open(multiplex.ConnID(id)); c2 != c {
+				res.Violate(w.Focus+".setup", "opening connection %d a second time returned a different connection", id)
 			}
 			conns[0][id] = c
 			if lis[id] {
